@@ -4,6 +4,7 @@ import (
 	"encoding/json"
 	"flag"
 	"fmt"
+	"go/types"
 	"os"
 	"path/filepath"
 	"regexp"
@@ -181,7 +182,7 @@ func runHarness(prog *ssa.Program, fset0 interface{}, pkg *ssa.Package, name str
 		globals: map[*ssa.Global]int{}, harness: name, unwind: unwind, maxVisits: 20000,
 		caseVals: map[string]int{}, caseRanges: map[string][2]int{}, bounds: map[string]string{},
 		trace: trace, initHeap: map[int]Value{}, assumptions: map[string]bool{},
-		redirects: map[string]*ssa.Function{}, mainPkg: pkg, enabledModels: map[string]bool{}, tier: tier, feasTimeout: feasMs,
+		redirects: map[string]*ssa.Function{}, mainPkg: pkg, enabledModels: map[string]bool{}, objTypes: map[int]types.Type{}, tier: tier, feasTimeout: feasMs,
 	}
 	e.installStubs()
 	e.fixedCases = map[string]int{}
